@@ -136,6 +136,9 @@ pub fn run_prop(ctx: &Ctx) -> PropReport {
     rep.part(|| run_enum(ctx, "gossip_replicas",
         "C10's two-successive-drops scenario (4 peers, second cut-off learnt from gossip while another endpoint is already disconnected), three replicas each: the scan over the endpoint map must not depend on its iteration order",
         ctx.tier.pick(300, 2000), move |i| super::c10::gossip_case(i, seed), eval, false));
+    rep.part(|| run_enum(ctx, "isolated_replicas",
+        "C10's isolated-observer scenario (both remote endpoints time out in the same poll with different last frames), three replicas each: the order in which the endpoint map yields the two Disconnected events must not matter",
+        ctx.tier.pick(300, 2000), move |i| super::c10::isolated_case(i, seed), eval, false));
     rep.floors.push(("replicas".into(), 0.3));
     rep.assumptions = vec![
         "hash order cannot be forced; every replica samples one fresh RandomState per map. A dependence that needs one specific order of k keys is missed by 3 replicas with probability about (1/k!)^2..1".into(),
